@@ -398,6 +398,16 @@ macro_rules! keys_backend {
                 }
             };
             let mut cell_rank = rank;
+            let nin = if kv(t, "nin").is_some() { kv_us(t, "nin") } else { n };
+            let nout = if kv(t, "nout").is_some() { kv_us(t, "nout") } else { n };
+            let mut ksk_in = GLWESecret::alloc(Degree(nin as u32), Rank(rank_in as u32));
+            fill_glwe_secret(&mut ksk_in, dist, &mut Source::new(seed32(sxs ^ 0x3333)));
+            let ksk_in_vis = replay_secret(nin, rank_in, dist, &mut Source::new(seed32(sxs ^ 0x3333)));
+            let mut ksk_out = GLWESecret::alloc(Degree(nout as u32), Rank(rank as u32));
+            fill_glwe_secret(&mut ksk_out, dist, &mut Source::new(seed32(sxs ^ 0x4444)));
+            let ksk_out_vis = replay_secret(nout, rank, dist, &mut Source::new(seed32(sxs ^ 0x4444)));
+            let mut sk_show = show_scalar(&sk_vis);
+            let mut skin_show = show_scalar(&sk_in_vis);
             match lay {
                 "gglwe" => {
                     let enc = EncryptionLayout::new(gl(rank_in, rank, dsize), noise).unwrap();
@@ -416,10 +426,13 @@ macro_rules! keys_backend {
                     }
                 }
                 "ksk" => {
+                    // the two secrets may live in rings of smaller degree (`nin=`, `nout=`): the routine embeds them
                     let enc = EncryptionLayout::new(gl(rank_in, rank, dsize), noise).unwrap();
                     let mut g = GLWESwitchingKey::alloc_from_infos(&gl(rank_in, rank, dsize));
-                    module.glwe_switching_key_encrypt_sk(&mut g, &sk_in, &sk, &enc, &mut xe, &mut xa, scratch.borrow());
+                    module.glwe_switching_key_encrypt_sk(&mut g, &ksk_in, &ksk_out, &enc, &mut xe, &mut xa, scratch.borrow());
                     push_gglwe(&mut cells, &g.to_ref(), rank_in);
+                    sk_show = show_scalar(&ksk_out_vis);
+                    skin_show = show_scalar(&ksk_in_vis);
                 }
                 "atk" => {
                     let enc = EncryptionLayout::new(gl(rank, rank, dsize), noise).unwrap();
@@ -481,8 +494,8 @@ macro_rules! keys_backend {
                 "ok cells={} size={} sk={} skin={} sklwein={} sklweout={} pt={} words={} e={} obj={}",
                 cells.len(),
                 size,
-                show_scalar(&sk_vis),
-                show_scalar(&sk_in_vis),
+                sk_show,
+                skin_show,
                 ints(sk_lwe_in.raw()),
                 ints(sk_lwe_out.raw()),
                 show_scalar(&pt),
